@@ -42,8 +42,8 @@ NAME_DOMAINS = {
     "z_index": [0, 1], "number": [1, 2], "start_value": [1, 5], "anchor_page": [1, 2], "table_name": ["T", "a b"], "usage": ["filter", "print-range"],
     "break_before": ["page", "column"], "break_after": ["page"], "area": ["text", "paragraph", "graphic"], "master_page": ["Standard"],
     "page_kind": ["left"], "text_style": ["T1"], "style": ["S1", "a b"], "draw_id": ["id1"], "name": ["N1", "a b", "é&<"],
-    "title": ["Ti", "a b"], "protection_key": ["k"], "margin": ["1cm"], "creator": ["me", "é"], "citation": ["1", "*"], "note_id": ["n1"], "body": ["b", "a b"],
-    "text": ["t", "a  b"], "list_content": [["a", "b"]], "text_or_element": ["abc", "a  b"], "delay": [timedelta(seconds=5)], "date_adjust": [timedelta(days=1)], "time_adjust": [timedelta(hours=1)],
+    "title": ["Ti", "a b", 'x xmlns:a="b" y'], "protection_key": ["k"], "margin": ["1cm"], "creator": ["me", "é"], "citation": ["1", "*"], "note_id": ["n1"], "body": ["b", "a b"],
+    "text": ["t", "a  b", 'x xmlns:a="b" y'], "list_content": [["a", "b"]], "text_or_element": ["abc", "a  b", 'x xmlns:a="b" y'], "delay": [timedelta(seconds=5)], "date_adjust": [timedelta(days=1)], "time_adjust": [timedelta(hours=1)],
     "data_style": ["N0"], "fixed": [True, False],
 }
 
@@ -385,6 +385,7 @@ def dispatch_check():
                 check(par, label + "parent")
 
     def all_paths(root, label):
+        nonlocal nev
         walk_children(root, label)
         for e in root.get_elements("descendant::*"):
             check(e, label + "get_elements")
@@ -402,7 +403,12 @@ def dispatch_check():
                 e = root.get_element(f"descendant::{q}")
                 if e is not None:
                     check(e, label + "get_element")
-                    check(Element.from_tag(e.serialize()), label + "from_tag(serialize)")
+                    try:
+                        check(Element.from_tag(e.serialize()), label + "from_tag(serialize)")
+                    except Exception as ex:
+                        nev += 1
+                        fails.append({"signature": f"site=dispatch:{label}from_tag(serialize); class=tag={q}; symptom=raises:{type(ex).__name__}",
+                                      "replay": {"replay_module": "mc.checks.c12", "klass": "dispatch", "kwargs": {"path": label + "from_tag(serialize)", "tag": q}, "history": [], "oracle": "reparse", "expected": "no exception", "actual": f"{type(ex).__name__}: {ex}"[:150]}})
 
     all_paths(root, "")
     # the same tree written with non-canonical namespace prefixes
